@@ -46,35 +46,70 @@ STR_APIS = ("er", "prefix")
 #   hyp = N lists of M sequences, logp = N lists of M floats, sub_avg, reduction, + the string options
 
 
-def _call_str(case, ref, hyp, norm=None, costs=None):
+# the documented defaults of the public entry points (signature / docstring of the pinned version); an option that a
+# 'sparse' call leaves out must behave as if this value had been passed
+DEFAULTS = {
+    "er": dict(eos=None, include_eos=False, norm=True, batch_first=False, ins_cost=1.0, del_cost=1.0, sub_cost=1.0,
+               warn=True),
+    "prefix": dict(eos=None, include_eos=True, norm=True, batch_first=False, ins_cost=1.0, del_cost=1.0, sub_cost=1.0,
+                   padding=-100, exclude_last=False, warn=True),
+    "mer": dict(eos=None, include_eos=True, sub_avg=True, batch_first=False, norm=True, ins_cost=1.0, del_cost=1.0,
+                sub_cost=1.0, reduction="mean", warn=True),
+}
+
+
+def _scale(case):
+    return case.get("scale", SCALE)
+
+
+def _opts_str(case, norm, costs):
+    """every option of an error_rate / prefix_error_rates call, in positional order"""
+    ci, cd, cs = (k / _scale(case) for k in (costs or case["costs"]))
+    o = dict(eos=case["eos"], include_eos=case["include_eos"], norm=norm, batch_first=case["batch_first"],
+             ins_cost=ci, del_cost=cd, sub_cost=cs)
+    if case["api"] == "prefix":
+        o.update(padding=case["padding"], exclude_last=case["exclude_last"])
+    o["warn"] = case["warn"]
+    return o
+
+
+def _fn_str(case, norm=None, costs=None):
+    """the callable (ref, hyp) -> tensor of the case's entry point"""
     import pydrobert.torch.functional as F
     import pydrobert.torch.modules as M
 
-    ci, cd, cs = (k / SCALE for k in (costs or case["costs"]))
     norm = case["norm"] if norm is None else norm
-    eos, inc, bf, warn = case["eos"], case["include_eos"], case["batch_first"], case["warn"]
+    o = _opts_str(case, norm, costs)
+    Fn = F.error_rate if case["api"] == "er" else F.prefix_error_rates
+    Mod = M.ErrorRate if case["api"] == "er" else M.PrefixErrorRates
+    entry = case.get("entry")
+    if case.get("defaults"):  # documented defaults (er: include_eos=False; prefix: include_eos=True, padding=-100; ...)
+        return lambda ref, hyp: Fn(ref, hyp, case["eos"], warn=case["warn"])
+    if entry == "sparse":
+        kw = base.sparse_kwargs(o, DEFAULTS[case["api"]], case.get("keep", ()))
+        if case["module"]:
+            return Mod(**kw)
+        return lambda ref, hyp: Fn(ref, hyp, **kw)
+    if entry == "script":
+        return torch.jit.script(Mod(*o.values()))
+    if entry == "trace":
+        ex = torch.full((1, 1), 0 if case["eos"] is None else case["eos"], dtype=torch.long)
+        return torch.jit.trace(Mod(*o.values()), (ex, ex))
+    if entry == "script_fn":
+        f = torch.jit.script(Fn)
+        return lambda ref, hyp: f(ref, hyp, *o.values())
+    if case["module"]:
+        return Mod(*o.values())
+    if case.get("kw"):
+        rev = dict(reversed(list(o.items())))
+        return lambda ref, hyp: Fn(hyp=hyp, ref=ref, **rev)
+    return lambda ref, hyp: Fn(ref, hyp, *o.values())
+
+
+def _call_str(case, ref, hyp, norm=None, costs=None):
     with warnings.catch_warnings():
         warnings.simplefilter("ignore")
-        if case["api"] == "er":
-            if case.get("defaults"):  # documented defaults: include_eos=False, norm=True, time-major, unit costs
-                return F.error_rate(ref, hyp, eos, warn=warn)
-            if case["module"]:
-                return M.ErrorRate(eos, inc, norm, bf, ci, cd, cs, warn)(ref, hyp)
-            if case.get("kw"):
-                return F.error_rate(hyp=hyp, ref=ref, warn=warn, sub_cost=cs, del_cost=cd, ins_cost=ci,
-                                    batch_first=bf, norm=norm, include_eos=inc, eos=eos)
-            return F.error_rate(ref, hyp, eos, inc, norm, bf, ci, cd, cs, warn)
-        if case.get("defaults"):  # include_eos=True, norm=True, padding=-100, exclude_last=False
-            return F.prefix_error_rates(ref, hyp, eos, warn=warn)
-        if case["module"]:
-            return M.PrefixErrorRates(eos, inc, norm, bf, ci, cd, cs, case["padding"], case["exclude_last"],
-                                      warn)(ref, hyp)
-        if case.get("kw"):
-            return F.prefix_error_rates(hyp=hyp, ref=ref, warn=warn, exclude_last=case["exclude_last"],
-                                        padding=case["padding"], sub_cost=cs, del_cost=cd, ins_cost=ci,
-                                        batch_first=bf, norm=norm, include_eos=inc, eos=eos)
-        return F.prefix_error_rates(ref, hyp, eos, inc, norm, bf, ci, cd, cs, case["padding"],
-                                    case["exclude_last"], warn)
+        return _fn_str(case, norm, costs)(ref, hyp)
 
 
 def _eff(case):
@@ -82,20 +117,30 @@ def _eff(case):
     if not case.get("defaults"):
         return case
     if case["api"] == "er":
-        return dict(case, include_eos=False, norm=True, batch_first=False, costs=[4, 4, 4])
+        return dict(case, include_eos=False, norm=True, batch_first=False, costs=[4, 4, 4], scale=SCALE)
     if case["api"] == "prefix":
         return dict(case, include_eos=True, norm=True, batch_first=False, costs=[4, 4, 4], padding=-100,
-                    exclude_last=False)
+                    exclude_last=False, scale=SCALE)
     return dict(case, include_eos=True, norm=True, batch_first=False, costs=[4, 4, 4], sub_avg=True,
-                reduction="mean")
+                reduction="mean", scale=SCALE)
 
 
 def run_str(case, norm=None, costs=None):
     N, R, H = _dims(case)
     bf = _eff(case)["batch_first"]
     try:
-        out = _call_str(case, _tensor(case["ref"], R, bf), _tensor(case["hyp"], H, bf), norm, costs)
-        return {"shape": list(out.shape), "dtype": str(out.dtype), "val": _canon(out)}
+        lay = case.get("layout") or ("contig", "contig")
+        junk = 0 if case["eos"] is None else case["eos"]
+        ref = base._tensor_l(case["ref"], R, bf, lay[0], junk)
+        hyp = ref if case.get("alias") else base._tensor_l(case["hyp"], H, bf, lay[1], junk)
+        with warnings.catch_warnings():
+            warnings.simplefilter("ignore")
+            fn = _fn_str(case, norm, costs)
+        sd = 1 if bf else 0
+        out, flags = base.call_with_history(case, fn, [ref, hyp], [sd, sd])
+        res = {"shape": list(out.shape), "dtype": str(out.dtype), "val": _canon(out)}
+        res.update(flags)
+        return res
     except Exception as e:
         return {"exc": exc_kind(e), "msg": str(e)[:200]}
 
@@ -126,38 +171,69 @@ def _mer_tensors(case):
     return logp, ref, hyp
 
 
-def _call_mer(case, logp, ref, hyp):
+def _fn_mer(case):
+    """the callable (log_probs, ref, hyp) -> tensor of the case's entry point"""
     import pydrobert.torch.functional as F
     import pydrobert.torch.modules as Mo
 
-    ci, cd, cs = (k / SCALE for k in case["costs"])
-    eos, inc, bf, warn = case["eos"], case["include_eos"], case["batch_first"], case["warn"]
+    ci, cd, cs = (k / _scale(case) for k in case["costs"])
+    o = dict(eos=case["eos"], include_eos=case["include_eos"], sub_avg=case["sub_avg"], batch_first=case["batch_first"],
+             norm=case["norm"], ins_cost=ci, del_cost=cd, sub_cost=cs, reduction=case["reduction"], warn=case["warn"])
+    ctor = [v for k, v in o.items() if k != "warn"]
+    warn = case["warn"]
+    entry = case.get("entry")
+    if case.get("defaults"):
+        return lambda logp, ref, hyp: F.minimum_error_rate_loss(logp, ref, hyp, case["eos"], warn=warn)
+    if entry == "sparse":
+        kw = base.sparse_kwargs(o, DEFAULTS["mer"], case.get("keep", ()))
+        if case["module"]:
+            m = Mo.MinimumErrorRateLoss(**{k: v for k, v in kw.items() if k != "warn"})
+            fw = {"warn": kw["warn"]} if "warn" in kw else {}
+            return lambda logp, ref, hyp: m(logp, ref, hyp, **fw)
+        return lambda logp, ref, hyp: F.minimum_error_rate_loss(logp, ref, hyp, **kw)
+    if entry == "script":
+        m = torch.jit.script(Mo.MinimumErrorRateLoss(*ctor))
+        return lambda logp, ref, hyp: m(logp, ref, hyp, warn)
+    if entry == "trace":  # the example has the rank of the real reference (2-D or 3-D), as a user's example would
+        ex_ref = torch.zeros((2, 2, 2) if case["ref3"] else (2, 2), dtype=torch.long)
+        m = torch.jit.trace(Mo.MinimumErrorRateLoss(*ctor), (torch.zeros(2, 2), ex_ref, torch.zeros(2, 2, 2, dtype=torch.long)))
+        return m
+    if entry == "script_fn":
+        f = torch.jit.script(F.minimum_error_rate_loss)
+        return lambda logp, ref, hyp: f(logp, ref, hyp, *o.values())
+    if case["module"]:
+        m = Mo.MinimumErrorRateLoss(*ctor)
+        return lambda logp, ref, hyp: m(logp, ref, hyp, warn)
+    if case.get("kw"):
+        rev = dict(reversed(list(o.items())))
+        return lambda logp, ref, hyp: F.minimum_error_rate_loss(hyp=hyp, ref=ref, log_probs=logp, **rev)
+    return lambda logp, ref, hyp: F.minimum_error_rate_loss(logp, ref, hyp, *o.values())
+
+
+def _call_mer(case, logp, ref, hyp):
     with warnings.catch_warnings():
         warnings.simplefilter("ignore")
-        if case.get("defaults"):
-            return F.minimum_error_rate_loss(logp, ref, hyp, eos, warn=warn)
-        if case["module"]:
-            return Mo.MinimumErrorRateLoss(eos, inc, case["sub_avg"], bf, case["norm"], ci, cd, cs,
-                                           case["reduction"])(logp, ref, hyp, warn)
-        if case.get("kw"):
-            return F.minimum_error_rate_loss(hyp=hyp, ref=ref, log_probs=logp, warn=warn, reduction=case["reduction"],
-                                             sub_cost=cs, del_cost=cd, ins_cost=ci, norm=case["norm"], batch_first=bf,
-                                             sub_avg=case["sub_avg"], include_eos=inc, eos=eos)
-        return F.minimum_error_rate_loss(logp, ref, hyp, eos, inc, case["sub_avg"], bf, case["norm"], ci, cd, cs,
-                                         case["reduction"], warn)
+        return _fn_mer(case)(logp, ref, hyp)
 
 
 def run_mer(case):
     try:
         logp, ref, hyp = _mer_tensors(case)
-        out = _call_mer(case, logp, ref, hyp)
+        with warnings.catch_warnings():
+            warnings.simplefilter("ignore")
+            fn = _fn_mer(case)
+        bf = _eff(case)["batch_first"]
+        td = 2 if bf else 0  # the time dimension of hyp (and of a 3-D ref); a 2-D ref has it at 1 / 0
+        out, flags = base.call_with_history(case, fn, [logp, ref, hyp], [1, td if case["ref3"] else (1 if bf else 0), td])
         if not bool(torch.isfinite(out).all()):
             return {"shape": list(out.shape), "dtype": str(out.dtype), "val": "nonfinite"}
         if out.dim() == 0:
             val = _canon(out.reshape(1))[0]
         else:
             val = _canon(out)
-        return {"shape": list(out.shape), "dtype": str(out.dtype), "val": val}
+        res = {"shape": list(out.shape), "dtype": str(out.dtype), "val": val}
+        res.update(flags)
+        return res
     except Exception as e:
         return {"exc": exc_kind(e), "msg": str(e)[:200]}
 
@@ -210,7 +286,7 @@ def _mer_args(case):
 def _obs_mer(case, out):
     if "exc" in out:
         return "OErr" if out["exc"] == "RuntimeError" else None
-    if out["val"] == "nonfinite" or not _shape_ok(case, out) or out["dtype"] != "torch.float32":
+    if out["val"] == "nonfinite" or not _shape_ok(case, out) or out["dtype"] != "torch.float32" or "unstable" in out:
         return None
     if _eff(case)["reduction"] == "none":
         return "(OMat " + cl([cl([_q(x) for x in row]) for row in out["val"]]) + ")"
@@ -224,7 +300,8 @@ def model_term(case, out):
         if obs is None:
             return "false"
         return f"check_mer {_mer_args(case)} {cq(TOL)} {obs}"
-    if "exc" in out or out["val"] == "nonfinite" or not _shape_ok(case, out) or out["dtype"] != "torch.float32":
+    if ("exc" in out or out["val"] == "nonfinite" or not _shape_ok(case, out) or out["dtype"] != "torch.float32"
+            or "unstable" in out):
         return "false"
     N, R, H = _dims(case)
     ref, hyp = _mat(case["ref"], R, e["batch_first"]), _mat(case["hyp"], H, e["batch_first"])
@@ -254,7 +331,7 @@ def spec_term(case, out):
                         for m in range(M)]) for n in range(N)])
         w = cl([cl([cq(x) for x in row]) for row in _weights(case)])
         return f"spec_mer_core {_spec_common(e)} {cb(e['sub_avg'])} S{_red(case)[1:]} {cn(M)} {pairs} {w} {cq(TOL)} {obs}"
-    if "exc" in out or out["val"] == "nonfinite" or not _shape_ok(case, out):
+    if "exc" in out or out["val"] == "nonfinite" or not _shape_ok(case, out) or "unstable" in out:
         return "false"
     N, R, H = _dims(case)
     parts = []
@@ -343,6 +420,14 @@ def in_space(case):
             return False
         if H == 0 and case["api"] == "prefix" and _eff(case)["exclude_last"]:
             return False
+    if case.get("alias") and case["ref"] != case["hyp"]:
+        return False  # the same tensor object is handed over for both arguments
+    for which, l in zip(("ref", "hyp"), case.get("layout") or ()):
+        if l == "expand" and (any(x != case[which][0] for x in case[which]) or case.get("history")):
+            return False  # a stride-0 broadcast denotes equal sequences and cannot be overwritten in place
+    sc = _scale(case)
+    if sc & (sc - 1) and len(set(case["costs"])) > 1 and not case.get("defaults"):
+        return False  # unequal costs off the dyadic grid: float ties would differ from exact ties (regime E only)
     return all(k > 0 for k in case["costs"])
 
 
@@ -642,6 +727,148 @@ def gen_mer(chk, n):
     return cases
 
 
+# ---- robustness streams (notes/AUDIT_GUIDE.md); the machinery is props.c01's -------------------------
+
+
+def gen_eos_mix(chk, n):
+    """batch interaction of the include_eos length fix-up (see props.c01.gen_eos_mix), with C02's cost triples"""
+    cases = []
+    for c in base.gen_eos_mix(chk, n):
+        c["api"] = "er" if c["api"] == "ed" else "prefix"
+        c["costs"] = _rand_costs(chk.rng)
+        c["norm"] = chk.rng.random() < 0.5
+        c["defaults"] = False
+        cases.append(c)
+    return cases
+
+
+def gen_sparse(chk, n):
+    """calls that leave out every option sitting on its documented default: error_rate (include_eos=False, norm=True),
+    prefix_error_rates (include_eos=True, norm=True, padding=-100), minimum_error_rate_loss (include_eos=True,
+    sub_avg=True, norm=True, reduction='mean'); functional keywords and module constructor keywords"""
+    rng = chk.rng
+    cases = []
+    for i in range(n):
+        V = rng.randint(1, 3)
+        eos = rng.choice([None, V, V, -1, 0])
+        alphabet = [a + (1 if eos == 0 else 0) for a in range(V)]
+        if i % 4 == 3:
+            N, M, R, H = rng.randint(1, 3), rng.randint(2, 3), rng.randint(1, 5), rng.randint(2, 5)
+            ref3 = rng.random() < 0.5
+            if ref3:
+                ref = [[_rand_seq(rng, R, alphabet, eos, 0.15) for _ in range(M)] for _ in range(N)]
+                hyp = [[_rand_seq(rng, H, alphabet, eos, 0.15) for _ in row] for row in ref]
+            else:
+                ref = [_rand_seq(rng, R, alphabet, eos, 0.15) for _ in range(N)]
+                hyp = [[(_mutate(rng, r, alphabet, eos, H) if rng.random() < 0.5 else _rand_seq(rng, H, alphabet, eos, 0.15))
+                        for _ in range(M)] for r in ref]
+            f = base._sparse_fields(rng, "mer", DEFAULTS)
+            f["sub_avg"] = rng.random() < 0.6
+            f["reduction"] = "mean" if rng.random() < 0.6 else rng.choice(["sum", "none"])
+            f["costs"] = [4, 4, 4] if rng.random() < 0.5 else _rand_costs(rng)
+            cases.append(dict(api="mer", module=rng.random() < 0.5, kw=False, ref3=ref3, ref=ref, hyp=hyp,
+                              logp=[[rng.randint(-2048, 2048) / 1024 for _ in range(M)] for _ in range(N)], eos=eos,
+                              entry="sparse", defaults=False, stream="sparse-defaults", **f))
+            continue
+        N, R, H = rng.randint(1, 4), rng.randint(1, 6), rng.randint(2, 6)
+        ref = [_rand_seq(rng, R, alphabet, eos, 0.15) for _ in range(N)]
+        hyp = [(_mutate(rng, r, alphabet, eos, H) if rng.random() < 0.4 else _rand_seq(rng, H, alphabet, eos, 0.15))
+               for r in ref]
+        api = rng.choice(["er", "prefix", "prefix"])
+        f = base._sparse_fields(rng, api, DEFAULTS)
+        f["costs"] = [4, 4, 4] if rng.random() < 0.5 else _rand_costs(rng)
+        cases.append(dict(api=api, module=rng.random() < 0.5, kw=False, ref=ref, hyp=hyp, eos=eos, entry="sparse",
+                          defaults=False, stream="sparse-defaults", **f))
+    return cases
+
+
+def gen_entry_layout(chk, n_str, n_mer):
+    """memory layouts, scripted / traced modules, scripted functions, call history (same callable and same tensor objects
+    re-used after an in-place overwrite), one tensor object for both arguments, unusual token ids"""
+    rng = chk.rng
+    cases = []
+    for c in gen_random_str(chk, n_str):
+        c["defaults"] = False
+        c = base._decorate(rng, c, defaults=DEFAULTS)
+        c["stream"] = "entry-layout"
+        cases.append(c)
+    for c in gen_mer(chk, n_mer):
+        if c["stream"] != "mer":
+            continue
+        c["defaults"] = False
+        c["entry"] = rng.choice(["script", "trace", "script_fn", "script_fn", "sparse", None])
+        if c["entry"] == "sparse":
+            c["keep"] = [k for k in DEFAULTS["mer"] if rng.random() < 0.3]
+        c["history"] = rng.random() < 0.5
+        c["stream"] = "mer-entry"
+        cases.append(c)
+    return cases
+
+
+def gen_numeric(chk, n):
+    """cost magnitudes: the triple scaled by 2^10..2^20 or 2^-8..2^-14, three costs up to 12 binary orders apart (the
+    alignments and their edit counts are unchanged, every float32 step stays exact); equal costs off the dyadic grid
+    (0.1, 0.3, 1/3, 1.1: the uniform path runs on unit costs, so counts are exact)"""
+    rng = chk.rng
+    cases = []
+    for c in gen_random_str(chk, n):
+        c["defaults"] = False
+        kind = rng.choice(["big", "small", "spread", "offgrid"])
+        uni = len(set(c["costs"])) == 1
+        if kind == "big":
+            e = rng.choice([10, 16, 20])
+            c["costs"] = [k * 2 ** e for k in c["costs"]]
+        elif kind == "small":
+            c["scale"] = SCALE * 2 ** rng.choice([8, 14])
+        elif kind == "spread":
+            c["scale"] = SCALE * 2 ** 6
+            c["costs"] = [k * 2 ** (0 if uni else rng.choice([0, 6, 12])) for k in c["costs"]]
+        else:
+            k = rng.randint(1, 12)
+            c["costs"] = [k, k, k]
+            c["scale"] = rng.choice([3, 7, 10, 10])
+        c["numeric"] = kind
+        c["stream"] = "numeric"
+        cases.append(c)
+    return cases
+
+
+def gen_long(chk, n_ref, n_hyp):
+    """size-dependent code paths: padded reference / hypothesis widths around and above 256, unequal costs (the mistakes
+    path; the equal-cost path is C01's table and is covered there).  One pair really is that long, the others end early."""
+    rng = chk.rng
+    cases = []
+    sizes = [255, 256, 257, 257, 258, 260, 300]
+    for i in range(n_ref + n_hyp):
+        long_ref = i < n_ref
+        W = sizes[i % len(sizes)] if i < len(sizes) else rng.choice(sizes)
+        alphabet = [0, 1, 2]
+        eos = rng.choice([None, 9, 9, 9, -1])
+        w = rng.randint(1, 4)
+        R, H = (W, w) if long_ref else (w, W)
+        N = rng.randint(2, 3)
+
+        def seq(width, really_long):
+            if really_long or eos is None:
+                L = width if eos is None else width - rng.randint(0, 3)
+                return [rng.choice(alphabet) for _ in range(L)] + [eos] * (width - L)
+            if width <= 8:
+                return _rand_seq(rng, width, alphabet, eos, 0.3)
+            L = rng.randint(0, 6)  # ends early, garbage (eos included) up to the padded width
+            return [rng.choice(alphabet) for _ in range(L)] + [eos] + [rng.choice(alphabet + [eos]) for _ in range(width - L - 1)]
+        ref = [seq(R, long_ref and n == 0) for n in range(N)]
+        hyp = [seq(H, (not long_ref) and n == 0) for n in range(N)]
+        api = rng.choice(["er", "prefix"])
+        costs = _rand_costs(rng)
+        while len(set(costs)) == 1:
+            costs = _rand_costs(rng)
+        cases.append(dict(api=api, module=rng.random() < 0.3, kw=rng.random() < 0.5, ref=ref, hyp=hyp, eos=eos,
+                          include_eos=rng.random() < 0.5, norm=rng.random() < 0.5, batch_first=rng.random() < 0.5,
+                          exclude_last=(api == "prefix" and rng.random() < 0.5), costs=costs, padding=rng.choice(PADS),
+                          warn=False, defaults=False, slow=True, stream="long-ref" if long_ref else "long-hyp"))
+    return cases
+
+
 def gen_cases(chk):
     cases = gen_exhaustive(chk)
     for c in load_corpus("C02"):
@@ -652,6 +879,12 @@ def gen_cases(chk):
     cases += gen_random_str(chk, 20000 if thorough else 1600)
     cases += gen_zero_width(chk, 400 if thorough else 60)
     cases += gen_mer(chk, 6000 if thorough else 500)
+    # robustness streams: drawn after the older streams so that those stay what they were for a given seed
+    cases += gen_eos_mix(chk, 1500 if thorough else 130)
+    cases += gen_sparse(chk, 2000 if thorough else 200)
+    cases += gen_entry_layout(chk, 3000 if thorough else 220, 600 if thorough else 60)
+    cases += gen_numeric(chk, 1200 if thorough else 100)
+    cases += gen_long(chk, 28 if thorough else 5, 21 if thorough else 3)
     return [c for c in cases if in_space(c)]
 
 
@@ -667,12 +900,17 @@ def _strip(case):
 def _fails(chk, case):
     if not in_space(case):
         return False
+    if case["api"] != "mer" and max(_dims(case)[1:]) > 40 and len(set(case["costs"])) == 1:
+        return False  # equal costs on a long batch: C01's table, cubic in the width inside Coq - not explored
     out = run_impl(case)
     return not coq_eval_bools(chk.workdir, IMPORTS, [model_term(case, out)], tag="shr")[0]
 
 
 def _cands_mer(case):
     N, M, R, H = _mdims(case)
+    for key in ("history", "entry"):
+        if case.get(key):
+            yield {k: v for k, v in case.items() if k != key}
     for n in range(N):
         if N > 1:
             yield dict(case, **{k: case[k][:n] + case[k][n + 1:] for k in ("ref", "hyp", "logp")})
@@ -708,6 +946,48 @@ def _cands(case):
     if case.get("defaults"):
         yield dict(_eff(case), defaults=False)
     yield from base._cands(case)
+
+
+def _pair_spec_term(case, out, n):
+    """Spec verdict on pair n of a (long) batch, on the canonicalised input: reference cut after its first eos, a long
+    hypothesis likewise (the prefix column cut to the rows that exist for it).  None when the pair itself is long."""
+    e = _eff(case)
+    r, h, eos = list(case["ref"][n]), list(case["hyp"][n]), case["eos"]
+    col = _col_of(case, out, n)
+    if eos is not None and eos in r:
+        r = r[: r.index(eos) + 1]
+    if len(h) > 16 and eos is not None and eos in h:
+        h = h[: h.index(eos) + 1]
+        if case["api"] == "prefix":
+            col = col[: len(h) + (0 if e["exclude_last"] else 1)]
+    if len(r) > 16 or len(h) > 16:
+        return None
+    if case["api"] == "er":
+        return f"spec_pair_er_okb {_spec_common(e)} {clz(r)} {clz(h)} {_q(col[0])}"
+    return (f"spec_pair_prefix_er_okb {_spec_common(e)} {cb(e['exclude_last'])} {cz(e['padding'])} {clz(r)} {clz(h)} "
+            f"{cl([_q(x) for x in col])}")
+
+
+def judge_long(chk, case, out):
+    """A batch wider than 255: C02.Spec's set-valued recursion is not evaluable on the long pair; the short pairs of the
+    batch are judged by the spec on their canonicalised columns (the property: a pair's value depends on nothing else)."""
+    rec = {"case": case, "impl": out, "theorems_at_stake": THEOREMS,
+           "correspondence": "corr:C02:batch with a padded width above 255", "spec_accepts_impl": None}
+    if "exc" in out or out["val"] == "nonfinite" or not _shape_ok(case, out):
+        rec["what"] = "implementation raised / returned a non-finite value or a wrong shape on a batch wider than 255"
+        return rec, False
+    idx = [(n, t) for n in range(len(case["ref"])) for t in [_pair_spec_term(case, out, n)] if t]
+    res = coq_eval_bools(chk.workdir, IMPORTS, [t for _, t in idx], tag="longspec") if idx else []
+    wrong = [n for (n, _), ok in zip(idx, res) if not ok]
+    rec["pairs_rejected_by_spec"] = wrong
+    rec["pairs_judged_by_spec"] = [n for n, _ in idx]
+    if wrong:
+        rec["what"] = ("pair(s) %s of a batch wider than 255 report a value that is not the edit count of any minimum-cost "
+                       "alignment of the pair (C02.Spec on the pair's columns cut after eos)" % wrong)
+        return rec, False
+    rec["what"] = ("batch wider than 255 differs from the model; the short pairs are accepted by the spec, the long pair "
+                   "cannot be judged by the spec")
+    return rec, True
 
 
 def judge(chk, case, out):
@@ -783,14 +1063,37 @@ def run(chk, cases=None):
         chk.count("pairs", len(prs))
         chk.count("empty_ref_pairs", sum(1 for r, _ in prs if not _cut(r, e["eos"], e["include_eos"])))
         chk.count("empty_hyp_pairs", sum(1 for _, h in prs if not _cut(h, e["eos"], e["include_eos"])))
-    res = coq_eval_bools(chk.workdir, IMPORTS, terms)
-    bad = [i for i, ok in enumerate(res) if not ok]
-    chk.extra["model_disagreements"] = len(bad)
+        chk.count("entry=" + (c.get("entry") or "legacy"))
+        chk.count("layout=" + "/".join(c.get("layout") or ("contig", "contig")))
+        for key in ("history", "alias", "ids", "numeric"):
+            if c.get(key):
+                chk.count(key + "=" + str(c[key]))
+        if c.get("scale"):
+            chk.count("scale=%d" % c["scale"])
+        if c["api"] != "mer" and c["eos"] is not None and e["include_eos"] and len(c["ref"]) > 1:
+            noe_h = [c["eos"] not in h for h in c["hyp"]]
+            if any(noe_h[m] and any(c["eos"] not in c["ref"][n] and not noe_h[n] for n in range(len(noe_h)) if n != m)
+                   for m in range(len(noe_h))):
+                chk.count("eos_fixup_interaction(hyp w/o eos + other pair: ref w/o eos, hyp with)")
+        if c["api"] == "prefix" and c["eos"] is not None and e["include_eos"] and any(c["eos"] in h[:-1] for h in c["hyp"]):
+            chk.count("prefix_include_eos_with_eos_before_last_row")
+    # the Coq evaluation runs beside the metamorphic phase; batches with a width above 255 get their own shards
+    from concurrent.futures import ThreadPoolExecutor
+    slow = [i for i, c in enumerate(cases) if c.get("slow")]
+    slow_set = set(slow)
+    fast = [i for i in range(len(cases)) if i not in slow_set]
+    pool = ThreadPoolExecutor(max_workers=2)
+    fut_fast = pool.submit(coq_eval_bools, chk.workdir, IMPORTS, [terms[i] for i in fast])
+    fut_slow = pool.submit(coq_eval_bools, chk.workdir, IMPORTS, [terms[i] for i in slow], 1, None, 1800, "long")
 
     mrng = _random.Random(chk.seed + 1)
     meta_n = 0
     meta_fail = []
+    NEW = ("eos-mix", "sparse-defaults", "entry-layout", "mer-entry", "numeric", "long-ref", "long-hyp")
     for i, c in enumerate(cases):
+        if not replaying and (c.get("slow") or c.get("entry") in base.JIT
+                              or streams[i] in NEW and i % (8 if chk.tier != "thorough" else 24) != 0):
+            continue
         if (replaying or chk.tier != "thorough" and streams[i] in ("random", "corpus", "mer")
                 or i % (3 if streams[i] != "exhaustive" else 12) == 0):
             meta_n += 1
@@ -799,17 +1102,33 @@ def run(chk, cases=None):
     chk.extra["metamorphic_cases"] = meta_n
     chk.extra["metamorphic_failures"] = len(meta_fail)
 
+    res = [True] * len(cases)
+    for i, ok in zip(fast, fut_fast.result()):
+        res[i] = ok
+    for i, ok in zip(slow, fut_slow.result()):
+        res[i] = ok
+    pool.shutdown()
+    bad = [i for i, ok in enumerate(res) if not ok]
+    chk.extra["model_disagreements"] = len(bad)
+
+    def _wide(c):
+        return c["api"] != "mer" and max(_dims(c)[1:]) > 40
+
     found_concrete = False
+    bad.sort(key=lambda i: (_wide(cases[i]), i))  # small inputs first
     for i in bad[:4]:
-        case = shrink(cases[i], lambda c: _fails(chk, c), _cands, budget=60)
+        if _wide(cases[i]) and found_concrete:
+            continue
+        case = shrink(cases[i], lambda c: _fails(chk, c), _cands, budget=60 if not _wide(cases[i]) else 12)
         out = run_impl(case)
-        rec, spec_ok = judge(chk, case, out)
+        rec, spec_ok = judge_long(chk, case, out) if _wide(case) else judge(chk, case, out)
         if not spec_ok:
             found_concrete = True
             chk.report(rec)
     if bad and not found_concrete:
-        sres = coq_eval_bools(chk.workdir, IMPORTS, [spec_term(cases[i], outs[i]) for i in bad], tag="specall")
-        hit = [bad[j] for j, ok in enumerate(sres) if not ok]
+        small = [i for i in bad if not _wide(cases[i])]
+        sres = coq_eval_bools(chk.workdir, IMPORTS, [spec_term(cases[i], outs[i]) for i in small], tag="specall")
+        hit = [small[j] for j, ok in enumerate(sres) if not ok]
         if hit:
             rec, _ = judge(chk, cases[hit[0]], outs[hit[0]])
             chk.report(rec)
@@ -820,7 +1139,7 @@ def run(chk, cases=None):
                     "what": "metamorphic relation of the property fails on the implementation: " + what,
                     "correspondence": "corr:C02:metamorphic", "theorems_at_stake": THEOREMS})
     if bad and not found_concrete:
-        rec, _ = judge(chk, cases[bad[0]], outs[bad[0]])
+        rec, _ = (judge_long if _wide(cases[bad[0]]) else judge)(chk, cases[bad[0]], outs[bad[0]])
         chk.report(rec, no_failing_input=True)
 
 
